@@ -90,7 +90,8 @@ def run_models(tier):
 # --------------------------------------------------------------------------
 # layer 1: replay of the SortMod transitions on the real sort.c
 
-def sort_replay(ck, bdir, lines):
+def sort_replay(ck, lines):
+    bdir = core.build("hooks")
     drv = core.cc_driver(bdir, "sortharness.c", emu=True)
     trs = [o for tg, o in lines if tg == "TR"]
     # (a) sort_replace as a function: every (sorted array, old, new) TLC visited
@@ -395,7 +396,8 @@ def random_walks(g, rng, count, maxlen):
     return out
 
 
-def conformance(ck, bdir, g, mc, tier, label, rng):
+def conformance(ck, g, mc, tier, label, rng):
+    bdir = core.build("hooks")      # (again: builds unused for 10 minutes are collected by other checks)
     system = emuhist.sys_with_rank(g.system)
     gids = gids_for(bdir, mc)
     hs = g.histories(limit=None)
@@ -463,7 +465,7 @@ def conformance(ck, bdir, g, mc, tier, label, rng):
 
 def main(pid, tier):
     ck = core.Check(pid, "model_checking", tier)
-    bdir = core.build("hooks")
+    core.build("hooks")
     rng = random.Random(core.seed())
     res = run_models(tier)
     ck.phase("tlc")
@@ -482,7 +484,7 @@ def main(pid, tier):
         if rn.violated != inv:
             raise core.MachineryError("negative configuration %s is not refuted by %s (got %s / %s)"
                                       % (cfg, inv, rn.violated, rn.error))
-    nrep, nhist = sort_replay(ck, bdir, r.lines)
+    nrep, nhist = sort_replay(ck, r.lines)
     ck.phase("sort_replay")
 
     # layers 2 and 3
@@ -502,7 +504,7 @@ def main(pid, tier):
                          sig="breakdown:model")
             continue
         g = emuhist.Graph(rm.lines)
-        a, b = conformance(ck, bdir, g, mc, tier, "C20/" + cfg[len("BreakdownMC_"):-4], rng)
+        a, b = conformance(ck, g, mc, tier, "C20/" + cfg[len("BreakdownMC_"):-4], rng)
         nh += a
         ns += b
     ck.phase("end_to_end")
